@@ -13,6 +13,21 @@ Holders == {"owner", "other", "risk"}
 Signers == {"owner", "other", "risk", "newbie", "admin", "lp", "module"}
 OwnerRows == {r \in Rows : r.own \in {"id", "signer"}}
 
+(* Argument axes of an owner cell. Authorisation must not depend on the VALUE of an argument:
+   amt   - for messages that carry an amount: zero, a small one, EXACTLY the whole available balance of the named position
+           (where handlers take "close the position" shortcuts), and more than that;
+   scope - for the order messages, which pair / app the message names: the pair where the market-making orders live
+           ("home"), another pair of the same app where the holders keep resting orders whose per-pair ids collide
+           with the home pair's ids ("alt"), and a second app with colliding pair and order ids ("decoy").
+   The victim view always spans ALL pairs and apps. *)
+AmountRows == {"vault.MsgDeposit", "vault.MsgWithdraw", "vault.MsgDraw", "vault.MsgRepay", "vault.MsgDepositAndDraw",
+               "locker.MsgDepositAsset", "locker.MsgWithdrawAsset",
+               "lend.Deposit", "lend.Withdraw", "lend.Borrow", "lend.DepositBorrow", "lend.Draw", "lend.Repay",
+               "liquidity.Unfarm", "liquidity.UnfarmAndWithdraw", "auctionsV2.MsgDepositLimitBid", "auctionsV2.MsgWithdrawLimitBid"}
+AmountsOf(r) == IF r.id \in AmountRows THEN {"zero", "small", "whole", "over"} ELSE {"na"}
+ScopeRows == {"liquidity.CancelOrder", "liquidity.CancelAllOrders", "liquidity.CancelMMOrder"}
+ScopesOf(r) == IF r.id \in ScopeRows THEN {"home", "alt", "decoy"} ELSE {"home"}
+
 (* Abstract position state: who owns it and a version that every successful move / reduce / close bumps. *)
 Pos0(holder) == [owner |-> holder, ver |-> 0]
 (* The step as the handlers implement it: a message that names the position by id is refused for a foreign
@@ -23,7 +38,9 @@ OwnerStep(pos, r, signer, env) ==
   ELSE IF r.own = "id" THEN [ok |-> FALSE, pos |-> pos]
   ELSE [ok |-> env, pos |-> pos]
 (* the outcome is predicted by the spec unless it is the signer's own business *)
-OwnerPredicted(r, holder, signer) == r.own = "id" \/ signer = holder
+OwnerPredicted(r, holder, signer, amt, scope) ==
+  IF signer = holder THEN amt \in {"na", "small"} /\ scope = "home"      \* the holder's own whole / over-sized request may fail for other reasons
+  ELSE r.own = "id"
 
 (* The property on one step (statement: "succeeds only when signed by that position's owner, and a rejected
    attempt changes no balance and no record"):
